@@ -204,7 +204,7 @@ def main(pid, fn):
     sys.exit(rc)
 
 
-def random_walks(graph, rng, n, max_len=200, cover_edges=True, init_filter=None):
+def random_walks(graph, rng, n, max_len=200, cover_edges=True, init_filter=None, cover_factor=20):
     """Random maximal walks through a TLC state graph; first covers every edge (if asked), then random.
 
     Yields lists [(action, args, state_dict)] starting with ('Init', (), init_state)."""
@@ -216,7 +216,7 @@ def random_walks(graph, rng, n, max_len=200, cover_edges=True, init_filter=None)
             for i, e in enumerate(es):
                 uncovered.add((s, i))
     produced = 0
-    while produced < n or (cover_edges and uncovered and produced < 20 * n):
+    while produced < n or (cover_edges and uncovered and produced < cover_factor * n):
         s = rng.choice(inits)
         walk = [('Init', (), graph.states[s])]
         for _ in range(max_len):
